@@ -258,8 +258,54 @@ class FibRun:
             raise ValueError(a)
 
 
+class DispatcherRun:
+    """ndn.app_support.dispatcher.Dispatcher driven through the same events as a front-end (it is a handler
+    table without validators, tokens or replies): Attach = register, Detach = unregister, RecvInterest = dispatch."""
+    def __init__(self):
+        from ndn.app_support.dispatcher import Dispatcher
+        self.d = Dispatcher()
+        self.handled = []
+        self.bg = []
+        self.nint = 0
+        self.natt = 0
+
+    def close(self):
+        pass
+
+    def apply(self, ev):
+        a = ev['a']
+        if a in ('Attach', 'AttachDup'):
+            h = ev['h']
+            try:
+                self.d.register(name_repr(ev['n'], ev['repr']), lambda name, param, app_param, h=h: self.handled.append({'h': h, 'i': param.nonce - NONCE0}))
+                ev['raised'] = False
+                self.natt += 1
+            except ValueError:
+                ev['raised'] = True
+        elif a == 'Detach':
+            try:
+                self.d.unregister(name_repr(ev['n'], ev.get('repr', 'uri')))
+                self.natt -= 1
+            except Exception as ex:  # noqa
+                self.bg.append('detach:' + type(ex).__name__)
+        elif a == 'RecvInterest':
+            self.nint += 1
+            before = len(self.handled)
+            ret = self.d.dispatch(enc.Name.from_str(nm(ev['it']['name'])), enc.InterestParam(nonce=NONCE0 + self.nint), None)
+            if bool(ret) != (len(self.handled) > before):
+                self.bg.append('dispatch-return-value-untruthful')
+        elif a in ('Tick', 'RecvJunk', 'Shutdown'):
+            pass
+        else:
+            raise ValueError(a)
+
+    def post(self):
+        return {'now': 0, 'up': True, 'handled': list(self.handled), 'wire': [], 'rets': [], 'natt': self.natt,
+                'vnew': [], 'bg': len(self.bg), 'bgw': sorted(set(self.bg))}
+
+
 def run_schedule(front, schedule):
-    r = FibRun(front)
+    r = DispatcherRun() if front == 'dispatcher' else FibRun(front)
     out = []
     try:
         for ev in schedule:
